@@ -136,6 +136,9 @@ class EvalCtx(object):
             result.append(node)  # type: ignore[arg-type]
 
         if cname:
+            # names that import each other in a circle lead back to where we came from
+            if any(cname is r for r in result):
+                return result
             return self.declarations(cname, result)
 
         return result
